@@ -441,7 +441,7 @@ func TestC01(t *testing.T) {
 			last = w.RunCheck(rows, q, vc, RunOpt{ReqDepth: 5})
 			return last.X
 		}, func(x *vsched.Execution) bool {
-			if last.Cut {
+			if diverged(x, sc.String()) || last.Cut {
 				return true
 			}
 			outcomes[memb(last.Res)]++
